@@ -425,6 +425,8 @@ class Gen:
     def fresh_schema(self):
         rng = self.rng
         depth = rng.choice([1, 1, 2, 3])
+        if getattr(self, "min_depth", 1) > 1:
+            depth = rng.choice([2, 3])
         tabs = rng.sample(TABLE_NAMES, rng.choice([2, 3, 3]))
         flat = []
         for tname in tabs:
@@ -531,6 +533,8 @@ class Gen:
             else:
                 path, cols = rng.choice(self.flat)
                 k = rng.randint(1, len(path)) if rng.random() < 0.4 else 1
+                if getattr(self, "full_paths", False) and rng.random() < 0.85:
+                    k = len(path)
                 if rng.random() < 0.4:
                     alias = rng.choice(ALIAS_NAMES)
                 s = ".".join(self.ref(p, 0.08) for p in path[len(path) - k:]) + (f" AS {self.ref(alias, 0.05)}" if alias else "")
@@ -931,6 +935,40 @@ def oracle(sql, nested_schema, dialect):
                 got_u = [p.alias_or_name for p in s1n.expressions]
                 if got_u != want:
                     return ("star-with-using-wrong-columns", f"SELECT * over USING joins gives {got_u}, SQL gives {want} in {s1!r}")
+        if known and has_using and not dup and all(isinstance(it, exp.Table) for it in srcs1):
+            # `t.*` over a table that takes no part in any USING / NATURAL merge = exactly t's columns, as t.c
+            joins0 = s0.args.get("joins") or []
+            if len(joins0) == len(src_cols) - 1:
+                def merged_cols(j, right_cols, left_cols):
+                    if j.method == "NATURAL":
+                        return {c for c in right_cols if c in left_cols}
+                    return {d.normalize_identifier(x.copy()).name for x in (j.args.get("using") or []) if isinstance(x, exp.Identifier)}
+
+                uses = []  # per join: the merged column names
+                for ji, j in enumerate(joins0):
+                    left_cols = {c for _, cs in src_cols[: ji + 1] for c in (cs or [])}
+                    uses.append(merged_cols(j, src_cols[ji + 1][1] or [], left_cols))
+                for p in s0.expressions:
+                    if not (isinstance(p, exp.Column) and isinstance(p.this, exp.Star)) or p.args.get("db"):
+                        continue
+                    if any(v not in (None, [], False) for v in p.this.args.values()):
+                        continue
+                    tname = d.normalize_identifier(p.args["table"].copy()).name
+                    pos = [i for i, (a, _) in enumerate(src_cols) if a == tname]
+                    if len(pos) != 1 or not src_cols[pos[0]][1]:
+                        continue
+                    ti = pos[0]
+                    tcols = src_cols[ti][1]
+                    own = uses[ti - 1] if ti > 0 else set()
+                    later = set().union(*uses[ti:]) if uses[ti:] else set()
+                    if own or (later & set(tcols)):
+                        continue  # t is (or may be) a side of a merge: engines differ on t.* there
+                    run = [(tname, c) for c in tcols]
+                    flat1 = [(e.table, e.name) if isinstance(e, exp.Column) else None for e in (x.unalias() for x in s1n.expressions)]
+                    if not any(flat1[i:i + len(run)] == run for i in range(len(flat1) - len(run) + 1)):
+                        return ("qualified-star-wrong-columns",
+                                f"{tname}.* must list {tname}'s columns {tcols} ({tname} takes no part in a USING merge); got "
+                                f"{[x.sql(dialect=dialect) for x in s1n.expressions]} in {s1!r}")
         if not known or has_using:
             continue
         # expected output names
@@ -1306,6 +1344,95 @@ WITNESSES = [
 ]
 
 
+def gen_join_star_case(rng, dialect):
+    """every join kind in every position over tables that share column names; `t.*` over each source / `*`"""
+    g = Gen(rng, dialect, False)
+    names = rng.sample(["x", "y", "z", "w"], rng.choice([2, 3, 3, 4]))
+    shared = rng.sample(["b", "c", "k"], 2)
+    cols = {}
+    for n in names:
+        cs = [c for c in shared if rng.random() < 0.75] + rng.sample(["a", "d", "e", "f"], rng.choice([0, 1, 2]))
+        rng.shuffle(cs)
+        cols[n] = cs or ["a"]
+    schema = {g.isql(n, False): {g.isql(c, False): "INT" for c in cs} for n, cs in cols.items()}
+    aliases = {}
+    parts = []
+    for i, n in enumerate(names):
+        al = rng.choice([None, None, "p%d" % i])
+        aliases[n] = al or n
+        src = n + (f" AS {al}" if al else "")
+        if i == 0:
+            parts.append(src)
+            continue
+        prev = [c for m in names[:i] for c in cols[m]]
+        common = [c for c in cols[n] if c in prev]
+        r = rng.random()
+        kind = rng.choice(["", "", "LEFT ", "INNER "])
+        if r < 0.4 and common:
+            u = rng.sample(common, rng.choice([1, 1, len(common)]))
+            parts.append(f" {kind}JOIN {src} USING ({', '.join(u)})")
+        elif r < 0.5 and common:
+            parts.append(f" NATURAL JOIN {src}")
+        elif r < 0.8:
+            m = rng.choice(names[:i])
+            parts.append(f" {kind}JOIN {src} ON {aliases[m]}.{rng.choice(cols[m])} = {aliases[n]}.{rng.choice(cols[n])}")
+        else:
+            parts.append(f" CROSS JOIN {src}")
+    r = rng.random()
+    if r < 0.25:
+        projs = ["*"]
+    elif r < 0.6:
+        projs = [aliases[rng.choice(names)] + ".*"]
+    else:
+        projs = [aliases[n] + ".*" for n in rng.sample(names, rng.randint(1, len(names)))]
+    return "SELECT " + ", ".join(projs) + " FROM " + "".join(parts), schema
+
+
+def db_default_oracle(sql, schema, dialect, as_text, use_catalog, pick):
+    """qualify(<tables written without db>, db=D[, catalog=C]) must equal qualify(<the same tables hand-qualified D.t>, db=D[, catalog=C])"""
+    sqlglot, exp, Dialect, Dialects, OptimizeError, qualify, MappingSchema = sg()
+    try:
+        full = sqlglot.parse_one(sql, dialect=dialect)
+    except Exception:  # noqa
+        return None
+    tabs = [t for t in full.find_all(exp.Table) if isinstance(t.args.get("db"), exp.Identifier) and isinstance(t.this, exp.Identifier)]
+    if use_catalog:
+        tabs = [t for t in tabs if isinstance(t.args.get("catalog"), exp.Identifier)]
+    else:
+        tabs = [t for t in tabs if not t.args.get("catalog")]
+    if not tabs:
+        return None
+    t0 = tabs[pick % len(tabs)]
+    dbi, cati = t0.args["db"], (t0.args.get("catalog") if use_catalog else None)
+    ctes = {c.alias.lower() for c in full.find_all(exp.CTE)}
+    short = full.copy()
+    stripped = 0
+    for t in short.find_all(exp.Table):
+        if t.args.get("db") == dbi and t.name.lower() not in ctes and \
+                ((cati is None and not t.args.get("catalog")) or (cati is not None and t.args.get("catalog") == cati)):
+            t.set("db", None)
+            t.set("catalog", None)
+            stripped += 1
+    if not stripped:
+        return None
+    kw = {"db": dbi.sql(dialect=dialect) if as_text else dbi.copy()}
+    if cati is not None:
+        kw["catalog"] = cati.sql(dialect=dialect) if as_text else cati.copy()
+    outs = []
+    for tree in (full, short):
+        try:
+            outs.append(qualify(tree.copy(), schema=schema, dialect=dialect, **kw).sql(dialect=dialect))
+        except OptimizeError as e:
+            outs.append("<OptimizeError: " + str(e).split(".")[0][:60] + ">")
+        except Exception as e:  # noqa
+            outs.append(f"<{type(e).__name__}>")
+    if outs[0] != outs[1]:
+        return ("default-db-differs-from-hand-qualified",
+                f"{short.sql(dialect=dialect)!r} with {', '.join(k + '=' + repr(v if isinstance(v, str) else v.sql(dialect=dialect)) for k, v in kw.items())} "
+                f"qualifies to {outs[1][:220]!r}; written out as {full.sql(dialect=dialect)!r} it qualifies to {outs[0][:220]!r}")
+    return None
+
+
 def db_arg_oracle(sql, schema, dialect, db_name, quoted):
     """qualify(db=<identifier text in the dialect's quoting>) must equal qualify(db=<the Identifier node>)"""
     sqlglot, exp, Dialect, Dialects, OptimizeError, qualify, MappingSchema = sg()
@@ -1442,6 +1569,28 @@ def search(chk: Check, hints, budget_s):
                 chk.report_violation(res[0] + "|" + skeleton(sql, dialect)[:80], res[1],
                                      {"sql": sql, "schema": schema, "dialect": dialect, "db": [dbn, qd]},
                                      context={"kind": res[0], "dialect": dialect or ""})
+        if rng.random() < 0.3:
+            # default db / catalog against depth-2/3 schemas keyed by (mixed-case) names; bigquery keeps table parts
+            # case-sensitive, so it is drawn often
+            d2 = rng.choice(["bigquery", "bigquery", None, "snowflake", "mysql"] + all_d)
+            g2 = Gen(rng, d2, False)
+            g2.min_depth, g2.full_paths = 2, True
+            schema2 = g2.fresh_schema()
+            sql2, _ = g2.select(0, {})
+            for _ in range(2):
+                args = [rng.random() < 0.5, rng.random() < 0.4, rng.randint(0, 5)]
+                res = db_default_oracle(sql2, schema2, d2, *args)
+                chk.count("search:default-db-vs-hand-qualified")
+                if res:
+                    chk.report_violation(res[0] + "|" + str(d2) + "|" + skeleton(sql2, d2)[:60], res[1],
+                                         {"sql": sql2, "schema": schema2, "dialect": d2, "dbdefault": args},
+                                         context={"kind": res[0], "dialect": d2 or ""})
+                    break
+        if rng.random() < 0.25:
+            d3 = rng.choice(all_d)
+            sql3, schema3 = gen_join_star_case(rng, d3)
+            chk.count("search:join-star-template")
+            consider(chk, sql3, schema3, d3, stats)
         if len(chk.violations) >= 4:
             break
     chk.search_info = {"ran": True, "budget_s": budget_s, "queries": stats["tried"], "violating": stats["violating"],
@@ -1526,6 +1675,10 @@ def replay(path: str) -> int:
         twice = dd.normalize_identifier(exp.Identifier(this=once, quoted=i["quoted"])).this
         print("replay:", i, "->", repr(once), "->", repr(twice))
         return 1
+    if "dbdefault" in r:
+        res = db_default_oracle(r["sql"], r["schema"], r["dialect"], *r["dbdefault"])
+        print("replay:", "VIOLATES: " + res[0] + ": " + res[1] if res else "holds")
+        return 1 if res else 0
     if "db" in r:
         res = db_arg_oracle(r["sql"], r["schema"], r["dialect"], r["db"][0], r["db"][1])
         print("replay:", "VIOLATES: " + res[0] + ": " + res[1] if res else "holds")
